@@ -426,8 +426,11 @@ void gen_c10(Plan& p, bool thorough) {
     }
   {
     Case b;
-    b.set("op", "lowmcbulk").set("param", prim).set("surf", (int64_t)r.below(2)).set("node", pick_node(r)).setu("seed", r.next() >> 16).setu("count", thorough ? 300000 : 12000);
-    p.tasks[0].push_back(b);
+    for (int rep = 0; rep < (thorough ? 2 : 1); rep++) {
+      b.set("op", "lowmcbulk").set("param", prim).set("surf", (int64_t)r.below(2)).set("node", pick_node(r)).setu("seed", r.next() >> 16).setu("count", thorough ? 150000 : 12000);
+      b.set("wd", 900); // CPU seconds: about 50 us per evaluation for the 256-bit instance, more under load
+      p.tasks[0].push_back(b);
+    }
   }
   int nrand = thorough ? 400 : 120;
   for (int i = 0; i < nrand; i++) {
